@@ -107,7 +107,7 @@ func (d *driver) doGraph(g Graph, kind string, prefix []byte) {
 	}
 	out := append([]byte{}, sink.Bytes()...)
 	c.Count("serialize:" + orOK(sname))
-	c.Case(fmt.Sprintf("CSer %s (%s) %s %d%%nat %s %s", heap, root, hx.CoqBytes(prefix), fuel, hx.CoqBool(det), sobs(sname, out)), in)
+	c.Case(fmt.Sprintf("CSer %s (%s) 0 %s %d%%nat %s %s", heap, root, hx.CoqBytes(prefix), fuel, hx.CoqBool(det), sobs(sname, out)), in)
 
 	// oracle: acceptance within the limits. "Within the limits" on the specification side: nesting at
 	// most MAX_STRUCT_DEPTH, no interop value, output within MAX_BYTEARRAY_SIZE.
@@ -215,7 +215,7 @@ func (g *Graph) firstChainEndless() (endless bool, ok bool) {
 func (d *driver) queueCyclic(g Graph, kind string) {
 	// Serialize starts from an almost full sink, so that the size limit ends the recursion after a
 	// few levels (with an empty sink it takes ~2*10^5 nested calls, see queueWitness)
-	prefill := constants.MAX_BYTEARRAY_SIZE - 6 - d.c.Intn(20)
+	prefill := constants.MAX_BYTEARRAY_SIZE - 20 - d.c.Intn(100)
 	for _, e := range []string{"Serialize", "BuildParamToNative"} {
 		pf := prefill
 		if e != "Serialize" {
@@ -231,7 +231,7 @@ func (d *driver) queueCyclic(g Graph, kind string) {
 // queueWitness: the documented witness w = [1, w], on every entry point that shares the detector.
 func (d *driver) queueWitness(full bool) {
 	g := Graph{Objs: []Obj{{Kind: "arr", Items: []Val{vInt(1), vRef("arr", 0)}}}, Root: vRef("arr", 0)}
-	prefill := constants.MAX_BYTEARRAY_SIZE - 8
+	prefill := constants.MAX_BYTEARRAY_SIZE - 64
 	for _, e := range []string{"Serialize", "BuildParamToNative", "Stringify", "Dump"} {
 		pf := prefill
 		if e != "Serialize" {
@@ -246,7 +246,7 @@ func (d *driver) queueWitness(full bool) {
 		// empty sink: about 2*10^5 nested calls before the size limit stops it (seconds, hundreds of MB of stack)
 		d.pending = append(d.pending, pendingProbe{
 			in:    input{Mode: "graph", G: &g, Prefill: 0, Kind: "witness-empty-sink"},
-			probe: Probe{G: g, Entry: "Serialize", Prefill: 0},
+			probe: Probe{G: g, Entry: "Serialize", Prefill: 0, BigStack: true},
 		})
 	}
 }
@@ -262,8 +262,7 @@ func (d *driver) runPending() {
 	}
 	t0 := time.Now()
 	results := runInChildren(probes, 120*time.Second)
-	c.Note(fmt.Sprintf("%d calls on cyclic values ran in child processes (stack capped at 8 MiB) in %d ms", len(probes), time.Since(t0).Milliseconds()))
-	coqCycSer := 0
+	c.Note(fmt.Sprintf("%d calls on cyclic values ran in child processes (stack capped at 2 MiB) in %d ms", len(probes), time.Since(t0).Milliseconds()))
 	for i, p := range d.pending {
 		r := results[i]
 		g := p.probe.G
@@ -325,12 +324,8 @@ func (d *driver) runPending() {
 			continue
 		}
 		if !r.Crashed && !r.Timeout && r.Err != "" && !strings.HasPrefix(r.Err, "other:") && p.probe.Prefill > 0 {
-			// the prefilled sink is a megabyte of zeros in the model too: few of these
-			if r.Err == "ECircular" || coqCycSer < c.N(2, 12) {
-				if r.Err != "ECircular" {
-					coqCycSer++
-				}
-				c.Case(fmt.Sprintf("CSer %s (%s) (repeat 0 (N.to_nat %d)) 64%%nat %s (SErr %s)", heap, root, p.probe.Prefill, hx.CoqBool(det), r.Err), p.in)
+			{
+				c.Case(fmt.Sprintf("CSer %s (%s) %d [] 64%%nat %s (SErr %s)", heap, root, p.probe.Prefill, hx.CoqBool(det), r.Err), p.in)
 			}
 		}
 	}
@@ -869,10 +864,16 @@ func Run(c *hx.Ctx) {
 			d.replay(r)
 		}
 	}
+	t0 := time.Now()
+	phase := func(name string) {
+		c.Note(fmt.Sprintf("phase %s: %d ms", name, time.Since(t0).Milliseconds()))
+		t0 = time.Now()
+	}
 	// the documented witness, on every run
 	d.queueWitness(!c.Quick())
 	d.sizeBoundary()
 
+	phase("size-boundary")
 	// key images
 	for i := 0; i < c.N(60, 400); i++ {
 		d.doKey(d.randPrim(true))
@@ -884,7 +885,7 @@ func Run(c *hx.Ctx) {
 	}
 
 	// acyclic graphs
-	nG := c.N(420, 3000)
+	nG := c.N(300, 3000)
 	for i := 0; i < nG; i++ {
 		var prefix []byte
 		if c.Intn(6) == 0 {
@@ -916,6 +917,7 @@ func Run(c *hx.Ctx) {
 			d.doGraph(d.randAcyclic(1+c.Intn(3), 2, false), "small", prefix)
 		}
 	}
+	phase("acyclic graphs")
 	// limits: oversized arrays, deep non-first nesting beyond the decoder's depth
 	for _, n := range []int{constants.MAX_ARRAY_SIZE, constants.MAX_ARRAY_SIZE + 1} {
 		var items []Val
@@ -930,8 +932,9 @@ func Run(c *hx.Ctx) {
 		}
 	}
 
+	phase("limit graphs")
 	// cyclic graphs: a cycle at every position
-	nC := c.N(36, 200)
+	nC := c.N(24, 200)
 	made := 0
 	for tries := 0; made < nC && tries < 20*nC; tries++ {
 		base := d.randAcyclic(1+c.Intn(5), 3, false)
@@ -946,9 +949,10 @@ func Run(c *hx.Ctx) {
 		d.queueCyclic(g, "cyclic")
 	}
 	d.runPending()
+	phase("cyclic graphs (child processes)")
 
 	// byte strings
-	nB := c.N(700, 6000)
+	nB := c.N(520, 6000)
 	var pool [][]byte
 	for i := 0; i < 40; i++ {
 		if b := d.serializeSpec(d.randAcyclic(c.Intn(5), 4, false)); b != nil {
@@ -983,6 +987,7 @@ func Run(c *hx.Ctx) {
 			}
 		}
 	}
+	phase("byte strings")
 }
 
 func (d *driver) replay(in input) {
